@@ -515,7 +515,7 @@ func (e *erasureCodingPartStore) newPartReader(ctx context.Context, tx database.
 		for stripeIndex := uint64(0); ; stripeIndex++ {
 			shards := make([][]byte, e.totalShards)
 			available := 0
-			dataBytes := 0
+			frameDataBytes := make([]int, e.totalShards)
 			seenAny := false
 			seenEnd := false
 			for i := 0; i < e.totalShards; i++ {
@@ -558,9 +558,7 @@ func (e *erasureCodingPartStore) newPartReader(ctx context.Context, tx database.
 					healShards[i] = true
 					continue
 				}
-				if dataBytes == 0 {
-					dataBytes = fDataBytes
-				}
+				frameDataBytes[i] = fDataBytes
 				shards[i] = payload
 				available++
 			}
@@ -568,6 +566,38 @@ func (e *erasureCodingPartStore) newPartReader(ctx context.Context, tx database.
 				closeHealingWriters(nil)
 				_ = pw.Close()
 				return
+			}
+			// The frame hash covers the payload only, so a damaged dataBytes
+			// field does not show on the shard itself. Every shard records the
+			// same value: take the one most shards agree on and treat a shard
+			// that disagrees like any other damaged shard.
+			votes := make(map[int]int)
+			for i := 0; i < e.totalShards; i++ {
+				if shards[i] != nil {
+					votes[frameDataBytes[i]]++
+				}
+			}
+			dataBytes, agreeing, tie := 0, 0, false
+			for v, c := range votes {
+				if c > agreeing {
+					dataBytes, agreeing, tie = v, c, false
+				} else if c == agreeing {
+					tie = true
+				}
+			}
+			if tie {
+				err := fmt.Errorf("shards disagree on the length of stripe %d", stripeIndex)
+				closeHealingWriters(err)
+				_ = pw.CloseWithError(err)
+				return
+			}
+			for i := 0; i < e.totalShards; i++ {
+				if shards[i] != nil && frameDataBytes[i] != dataBytes {
+					shards[i] = nil
+					available--
+					closeReaderAt(i)
+					healShards[i] = true
+				}
 			}
 			if available < e.dataShards {
 				err := fmt.Errorf("insufficient shards in stripe %d", stripeIndex)
